@@ -1083,7 +1083,7 @@ def run(out, tier, scratch):
         "specs; CRS.__eq__ must agree with it for every construction route and inspection history (checked as an oracle obligation and, "
         "through the combining operations, by the `history` predicate)",
         "unary_intersection's closed form assumes shapely's intersection of two geometries is a geometry",
-        "Geometry.split checks the CRSs at call time (repaired, d8854e4) and returns an iterator; the model describes the consumed list",
+        "Geometry.split checks the CRSs at call time (repaired, e97c4ff) and returns an iterator; the model describes the consumed list",
     ]
     # ---- static obligations
     decorated, candidates = static_scan()
